@@ -57,6 +57,9 @@ def fake_herd(animals):
 def run_direct(cases):
     from src.food_system.meat_and_dairy import MeatAndDairy
     from src.optimizer.parameters import Parameters
+    from src.food_system.food import Food
+    Food.conversions.set_nutrition_requirements(kcals_daily=2100.0, fat_daily=47.0, protein_daily=51.0,
+                                                include_fat=False, include_protein=False, population=1.0e7)
     out = []
     for c in cases:
         res = {}
